@@ -423,9 +423,12 @@ class Interp:
         st = State()
         body = self.entry
         frame = {}
+        self.mut_params = {}      # arg index -> hidden local holding the referent of a `&mut` parameter
         for i in range(1, body.arg_count + 1):
             ty = body.local_ty(i)
             frame[i] = self.init_value(st, ty, ('arg', i))
+            if isinstance(frame[i], Ref) and frame[i].mut and not frame[i].raw and frame[i].loc[0] == 'local' and isinstance(frame[i].loc[1], tuple):
+                self.mut_params[i] = frame[i].loc[1]
         st.frames.append(frame)
         self.outcomes = self.exec_body(st, body, 0)
         return self.outcomes
@@ -851,30 +854,72 @@ class Interp:
 
     # -- records -----------------------------------------------------------
     def make_record(self, st, body, v, oid, stmt):
-        """`CappedRecord{v} { data }`: the type invariant must hold here."""
+        """`CappedRecord{v} { data }`.  The type invariant (the buffer owns exactly the droppable
+        fields of the variant) is not required at the literal but wherever the record can be
+        observed: when it is dropped (drop_value), handed to foreign code or returned
+        (check_rec_invariant)."""
         b = st.objs[oid]
         b.in_record = True
         st.events.append(('mkrec', v, oid, fmt_span(stmt.get('span'))))
+        return Rec(v, oid)
+
+    def check_rec_invariant(self, st, rec, where, flags=None):
+        flags = st.flags if flags is None else flags
+        v = rec.v
+        b = st.objs[rec.oid]
+        if b.borrowed:
+            return
         want = {(c.k, c.ty): c for c in self.mod.F[v]}
         for key, cell in b.cells.items():
             if cell.state != 'owned':
                 continue
-            if any(isinstance(x, Own) and st.toks[x.tok].state == 'live' for x in cell.values()):
+            if any(isinstance(x, Own) and st.toks[x.tok].state in ('live', 'returned') for x in cell.values()):
                 if key not in want:
-                    st.flags.append(('G-INV', 'record literal CappedRecord%s built over a buffer that still owns a %s at offset %d which is not a field of that variant (would leak) [%s]' % (v, key[1], key[0], body.key)))
+                    flags.append(('G-INV', 'CappedRecord%s is %s while its buffer still owns a %s at offset %d which is not a field of that variant (would leak) [%s]' % (v, where, key[1], key[0], self.entry.key)))
         for key, c in want.items():
             cell = b.cells.get(key)
             ok = cell is not None and cell.state == 'owned'
             if c.needs_drop:
                 if not ok or not isinstance(cell.val, Own):
-                    st.flags.append(('G-INV', 'record literal CappedRecord%s: droppable field `%s` (%s at %d) is not owned by the buffer (its destructor would read garbage / a moved-out value) [%s]' % (v, c.name, c.ty, c.k, body.key)))
-        return Rec(v, oid)
+                    flags.append(('G-INV', 'CappedRecord%s is %s but its droppable field `%s` (%s at %d) is not owned by the buffer (its destructor would read garbage / a moved-out value) [%s]' % (v, where, c.name, c.ty, c.k, self.entry.key)))
+
+    def toks_in(self, st, v, out):
+        if isinstance(v, Own):
+            out.add(v.tok)
+        elif isinstance(v, (Rec, Buf)):
+            for cell in st.objs[v.oid].cells.values():
+                for x in cell.values():
+                    self.toks_in(st, x, out)
+        elif isinstance(v, Agg):
+            for f in v.fields.values():
+                self.toks_in(st, f, out)
+        elif isinstance(v, Enum):
+            for f in v.payload.values():
+                self.toks_in(st, f, out)
+        elif isinstance(v, MD):
+            self.toks_in(st, v.inner, out)
+
+    def recs_in(self, v):
+        if isinstance(v, Rec):
+            yield v
+        elif isinstance(v, Agg):
+            for f in v.fields.values():
+                yield from self.recs_in(f)
+        elif isinstance(v, Enum):
+            for f in v.payload.values():
+                yield from self.recs_in(f)
+        elif isinstance(v, MD):
+            yield from self.recs_in(v.inner)
 
     def drop_value(self, st, body, v, why):
         """Runs the abstract destructor of a value."""
         if isinstance(v, Own):
             t = st.toks[v.tok]
             if t.state == 'live':
+                t.state = 'dropped'
+            elif t.state == 'borrowed' and t.origin and t.origin[0] == 'arg' and t.origin[1] in getattr(self, 'mut_params', {}) and self.entry_kind != 'drop':
+                # behind `&mut`: the old value may be destroyed provided a valid one is in place
+                # at every exit (checked in finish)
                 t.state = 'dropped'
             elif t.state == 'borrowed':
                 st.flags.append(('G-OWN', 'drop of a value borrowed from the caller (%s) [%s]' % (t.origin, body.key)))
@@ -1283,6 +1328,8 @@ class Interp:
         return ('?',)
 
     def pass_value(self, st, a):
+        if isinstance(a, Rec):
+            self.check_rec_invariant(st, a, 'passed to foreign code')
         if isinstance(a, Own):
             t = st.toks[a.tok]
             if t.state == 'live':
@@ -1401,7 +1448,27 @@ class Interp:
         """Exit obligations for the entry function (DESIGN §2.4 step 4)."""
         flags = list(st.flags)
         if kind == 'return' and ret is not None:
+            for r in self.recs_in(ret):
+                self.check_rec_invariant(st, r, 'returned', flags)
             self.mark_returned(st, ret)
+        # what sits behind a `&mut` parameter at an exit is handed back to the caller: it must be a
+        # valid value, and it takes its live values with it
+        for i, hid in getattr(self, 'mut_params', {}).items():
+            v = st.hidden.get(hid)
+            if v is None or st.dtor_panic or self.entry_kind == 'drop':
+                continue   # (what Drop::drop leaves behind is dead storage)
+            if isinstance(v, Moved):
+                flags.append(('G-INV', 'the value behind `&mut` parameter %d was moved out and not replaced on the %s path [%s]' % (i, kind, self.entry.key)))
+                continue
+            for r in self.recs_in(v):
+                st.objs[r.oid].borrowed = False
+                self.check_rec_invariant(st, r, 'left behind `&mut` parameter %d on the %s path' % (i, kind), flags)
+            reach = set()
+            self.toks_in(st, v, reach)
+            for tid, tk in st.toks.items():
+                if tk.state == 'borrowed' and tk.origin and tk.origin[:2] == ('arg', i) and tid not in reach:
+                    flags.append(('G-LEAK', 'the %s that was behind `&mut` parameter %d (origin %s) is no longer there on the %s path and was not dropped [%s]' % (tk.ty, i, tk.origin, kind, self.entry.key)))
+            self.mark_returned(st, v)
         # parameters by reference: borrowed tokens must still be in place, except Drop::drop
         for tid, tk in st.toks.items():
             if tk.state == 'live' and not st.dtor_panic:
